@@ -315,7 +315,8 @@ func (h *handler) judge(recs []*projgen.StepRec) (accepted, violating, drift int
 			replay := projgen.ReplayObject(rec)
 			if rec.Pre.Cfg.Ab != "" && rec.Pre.Cfg.Ab != "none" {
 				h.abProbes++
-				label += fmt.Sprintf("  [autobind lists the model output package graph/model (%s)]", map[string]string{"model": "which holds only a doc file next to models_gen.go", "hand": "which holds the hand-written model Account next to models_gen.go"}[rec.Pre.Cfg.Ab])
+				label += fmt.Sprintf("  [autobind lists %s]", map[string]string{"model": "the model output package graph/model, which holds only a doc file next to models_gen.go", "hand": "the model output package graph/model, which holds the hand-written model Account next to models_gen.go",
+					"exec": "the exec package graph (generated.go); the schema has the types Config and ResolverRoot, named like top-level identifiers of generated.go"}[rec.Pre.Cfg.Ab])
 				if !h.abSampled && rec.Gen != nil && rec.Gen.OK() {
 					h.abSampled = true
 					h.c.Sample(map[string]any{"history": projgen.PathString(rec.Path), "cfg": rec.Pre.Cfg, "what": "Generate run again on the tree holding the previous models_gen.go inside an autobound package", "outcome": rec.Gen.Class})
@@ -404,6 +405,8 @@ const cycleSDL = `type Query {
   ring: RingA!
   search: [Hit!]!
   shapes: [Shape]
+  invoice: Invoice
+  receipt: Receipt
 }
 
 # 2-cycle with two edges one way, all non-null
@@ -425,6 +428,15 @@ type Line {
   qty: Int!
   price: Float
 }
+
+# two generated types whose names collide after Go-casing, each used as a field type by a DIFFERENT other type
+# (which of them gets the numbered Go name must not depend on map order)
+type Line_Item { id: ID! sku: String }
+type LineItem { id: ID! qty: Int }
+type Http_Error { code: Int! }
+type HTTPError { code: Int! text: String }
+type Invoice { id: ID! lines: [Line_Item!]! first: Line_Item err: Http_Error }
+type Receipt { id: ID! lines: [LineItem!]! last: LineItem err: HTTPError }
 
 # 3-cycle of non-null fields
 type RingA { b: RingB! name: String }
